@@ -104,7 +104,9 @@ class GNode:
         m = self.find(name)
         if m is None: raise Unsupported(f"graph node method {name}")
         qc, fn = m
-        return I.exec_function(fn, [self] + list(args), kwargs, qualname=f"{qc}.{name}")
+        decos = [ast.unparse(d) for d in fn.decorator_list]
+        if any(d not in ("staticmethod",) for d in decos): raise Unsupported(f"{qc}.{name} carries decorators {decos}: call convention not modelled")
+        return I.exec_function(fn, ([] if "staticmethod" in decos else [self]) + list(args), kwargs, qualname=f"{qc}.{name}")
 
     def vf_compare(self, I, other):
         return isinstance(other, GNode) and self.nid is other.nid
